@@ -4,6 +4,7 @@
 -/
 import SettlusModel.Proofs.OracleAuth
 import SettlusModel.Query
+import SettlusModel.Proofs.ValName
 namespace Settlus.C03
 open Settlus
 
@@ -38,14 +39,15 @@ theorem feeStep_keeps_os (a a1 : AState) (ch : Str × Nat) (tx : Tx) (h : feeSte
         · simp only [Option.some.injEq, Prod.mk.injEq] at h; rw [← h.1]
     · cases h
 
-/-- **a validator's prevote, vote or feeder delegation changes only through a transaction signed by its operator account or,
-for prevotes and votes, by the feeder account delegated under that validator string** - for every transaction shape:
-message lists of any length over all message kinds, authz exec nested to any depth, explicit fee payers -/
+/-- **a validator's prevote, vote or feeder delegation - under whichever spelling `k` of its address it is stored - changes only
+through a transaction signed by its operator account or, for prevotes and votes, by the feeder account delegated to under the
+canonical spelling of the validator's address** - for every transaction shape: message lists of any length over all message
+kinds, authz exec nested to any depth, explicit fee payers -/
 theorem ballot_change_authorised (H : Str → Str) (a : AState) (tx : Tx) (k : String) (hh : a.s.h ≠ 0)
     (hchg : ballotOf (deliverTx H a tx).a.s k ≠ ballotOf a.s k ∨ delegationOf (deliverTx H a tx).a.s k ≠ delegationOf a.s k) :
     ∃ i, decodeVal k = some i ∧
       (opAcc i ∈ tx.signers ∨
-       (delegationOf (deliverTx H a tx).a.s k = delegationOf a.s k ∧ ∃ f, delegationOf a.s k = some f ∧ f ∈ tx.signers)) := by
+       (delegationOf (deliverTx H a tx).a.s k = delegationOf a.s k ∧ ∃ f, delegationOf a.s (valName i) = some f ∧ f ∈ tx.signers)) := by
   have unchanged : ∀ os', os' = a.s.os → ¬ ((alGet os'.prevotes k, alGet os'.votes k) ≠ ballotOf a.s k ∨ alGet os'.feeders k ≠ delegationOf a.s k) := by
     intro os' e; subst e; unfold ballotOf delegationOf; simp
   unfold deliverTx at hchg ⊢
@@ -126,7 +128,7 @@ theorem ballot_change_authorised (H : Str → Str) (a : AState) (tx : Tx) (k : S
                       · have hfe : a1.s.os.feeders = a.s.os.feeders := eff2 (fun f e => hcons ⟨f, e⟩)
                         rcases hval.2 with hop | hdel
                         · left; rw [← hop]; exact hpin
-                        · cases hf : alGet a.s.os.feeders k with
+                        · cases hf : alGet a.s.os.feeders (valName i) with
                           | none =>
                             left
                             simp only [hf, Option.getD_none] at hdel
@@ -175,9 +177,10 @@ theorem ballot_change_authorised (H : Str → Str) (a : AState) (tx : Tx) (k : S
           · simp only [hsg, Bool.false_eq_true, if_false, rejected] at hchg
             exact unchanged _ rfl hchg
 
-/-- corollary: a stranger - neither the operator nor the feeder delegated under that validator string - changes nothing -/
+/-- corollary: a stranger - neither the operator nor the feeder delegated to under the canonical spelling - changes nothing,
+under any spelling; in particular an account named only by a consent stored under the upper-case spelling is a stranger -/
 theorem stranger_changes_nothing (H : Str → Str) (a : AState) (tx : Tx) (k : String) (i : Nat) (hh : a.s.h ≠ 0)
-    (hk : decodeVal k = some i) (hop : opAcc i ∉ tx.signers) (hfe : ∀ f, delegationOf a.s k = some f → f ∉ tx.signers) :
+    (hk : decodeVal k = some i) (hop : opAcc i ∉ tx.signers) (hfe : ∀ f, delegationOf a.s (valName i) = some f → f ∉ tx.signers) :
     ballotOf (deliverTx H a tx).a.s k = ballotOf a.s k ∧ delegationOf (deliverTx H a tx).a.s k = delegationOf a.s k := by
   by_cases hb : ballotOf (deliverTx H a tx).a.s k = ballotOf a.s k
   · by_cases hd : delegationOf (deliverTx H a tx).a.s k = delegationOf a.s k
@@ -198,9 +201,9 @@ theorem stranger_changes_nothing (H : Str → Str) (a : AState) (tx : Tx) (k : S
 /-- **the FeederDelegation query names the one account, besides the operator, that the admission check lets vote for a validator** -/
 theorem feeder_query_is_the_authorised_account (s : State) (f : Acct) (v : String) (i : Nat) (val : Val)
     (hv : decodeVal v = some i) (hval : getVal s.vals i = some val) (hb : val.bonded = true) :
-    validateFeeder s f v = true ↔ (f = opAcc i ∨ qFeeder s v = some f) := by
+    validateFeeder s f v = true ↔ (f = opAcc i ∨ qFeeder s (valName i) = some f) := by
   unfold validateFeeder qFeeder
-  simp only [hv, hval, hb, Bool.true_and, Option.map_some, Bool.or_eq_true, beq_iff_eq, Option.some.injEq]
+  simp only [hv, hval, hb, Bool.true_and, decodeVal_valName, Option.map_some, Bool.or_eq_true, beq_iff_eq, Option.some.injEq]
 
 
 end Settlus.C03
